@@ -4,7 +4,7 @@ import os, subprocess
 from . import term as T
 
 VERIF = os.path.dirname(os.path.dirname(os.path.abspath(__file__)))
-KDIR = os.path.join(VERIF, 'k')
+KDIR = os.environ.get('VERIF_KDIR') or os.path.join(VERIF, 'k')
 REPO = os.environ.get('VERIF_REPO', '/repo')
 import hashlib
 TDIR = os.path.join(VERIF, '.work', 'ktn' if REPO == '/repo' else 'ktn_' + hashlib.sha1(REPO.encode()).hexdigest()[:8])
